@@ -73,7 +73,8 @@ public:
     bool check_convergence(Scalar tol, Index number_eigenvalues)
     {
         const Array norms = m_residues.colwise().norm();
-        bool converged = true;
+        // There must be as many pairs as requested eigenvalues in the first place
+        bool converged = (norms.size() >= number_eigenvalues);
         m_root_converged = BoolArray::Zero(norms.size());
         for (Index j = 0; j < norms.size(); j++)
         {
